@@ -43,7 +43,7 @@ T_gate  == << {"new"}, {"sweep", "fit"}, {"sweep", "fit", "save"}, {"sweep", "sa
 T_refit == << {"new"}, {"fit"}, {"sweep", "fit"}, {"fit", "sweep"}, {"sweep", "save"}, {"sweep"} >>
 T_store == << {"new"}, {"fit"}, {"sweep"}, {"save"}, {"restart", "load"}, {"load", "sweep"}, {"sweep", "save"}, {"save", "sweep"} >>
 T_pure  == << {"new"}, {"fit"}, {"predict"}, {"predict", "readdf"}, {"predict", "scribble"}, {"predict", "save"} >>
-T_inter == << {"new"}, {"new"}, {"fit"}, {"predict", "fit"}, {"fit", "predict"}, {"predict"}, {"predict"} >>
+T_inter == << {"new"}, {"new"}, {"fit"}, {"predict", "fit"}, {"fit", "predict"}, {"predict"} >>
 T_obs   == << {"new"}, {"fit"}, {"predict"}, {"predict"}, {"predict"}, {"predict"} >>
 T_warm  == << {"other", "new"}, {"other", "new"}, {"new", "fit"}, {"fit", "other"}, {"fit", "predict"}, {"predict"} >>
 =============================================================================
